@@ -77,7 +77,9 @@ def kep_case(draw, hyp_ok=True, emax_ell=0.95, bodies=("Earth",)):
         frame = "body-centred"  # the one non-rotating frame vf.props.c01.frame_for() builds on that body
     return dict(el=el, form=form, frame=frame, epoch_us=epoch_us, dt_us=dt_us, lam=lam, k=k, share=share,
                 label=draw(st.sampled_from(LABELS)), epoch_label=draw(st.sampled_from(LABELS)),
-                by_name=draw(st.integers(0, 3)) == 0)
+                by_name=draw(st.integers(0, 3)) == 0,
+                near_us=draw(st.lists(st.sampled_from([1, 7, 150, 1000, 2000, 9000, -3, -4000]), max_size=2, unique=True)),
+                twin=draw(st.sampled_from([None, None, 6e-10, 3e-9])))
 
 
 def build(case, propagator):
@@ -165,6 +167,33 @@ def check_kepler(case):
         raise Violation("universal-variable",
                         f"Kepler.propagate({dt:.6f} s) differs from the two-body solution by dr={dr:.3g} dv={dv:.3g} "
                         f"(tol {tol:.3g}) e={e:.6g} form={case['form']}", dr=dr, dv=dv)
+
+    # 1b. neighbouring requests in the same process: a target a few microseconds .. milliseconds further, and a twin
+    #     orbit a few millimetres larger, each against ITS OWN two-body solution (nothing may be answered from what
+    #     was computed for the neighbour)
+    for d_us in case.get("near_us") or []:
+        date2 = mkdate(case["epoch_us"] + case["dt_us"] + d_us)
+        got2 = as_cart(orb.propagate(date2))
+        ref_n = tb.propagate_uv(cart0, dt + d_us * 1e-6, mu)
+        dr2, dv2 = rel_err(got2, ref_n)
+        worst = max(worst, dr2 / tol, dv2 / tol)
+        if dr2 > tol or dv2 > tol:
+            raise Violation("universal-variable-neighbour",
+                            f"Kepler.propagate({dt:.6f} s + {d_us} us), asked right after propagate({dt:.6f} s), differs from "
+                            f"its two-body solution by dr={dr2:.3g} dv={dv2:.3g} (tol {tol:.3g}) e={e:.6g}", dr=dr2, dv=dv2)
+    if case.get("twin"):
+        from beyond.orbits import Orbit
+
+        cart_t = np.array(cart0, float)
+        cart_t[:3] *= 1.0 + case["twin"]
+        twin = Orbit(cart_t.tolist(), orb.date, "cartesian", orb.frame, Kepler())
+        got_t = as_cart(twin.propagate(date))
+        dr3, dv3 = rel_err(got_t, tb.propagate_uv(cart_t, dt, mu))
+        worst = max(worst, dr3 / tol, dv3 / tol)
+        if dr3 > tol or dv3 > tol:
+            raise Violation("universal-variable-twin",
+                            f"a second orbit {case['twin']:.1e} (relative) larger, propagated by {dt:.6f} s after the first one, "
+                            f"differs from its own two-body solution by dr={dr3:.3g} dv={dv3:.3g} (tol {tol:.3g})")
 
     # 2. invariants a, e, i, raan, argp ; mean anomaly advance n.dt
     a0 = tb.cart2elements(cart0, mu)
